@@ -13,5 +13,5 @@ def run(tier, replay=None):
     out, build, problems = K.begin(PROP, tier, CONE, "Props/C18.v")
     is_elab_replay = bool(replay) and "ops" in __import__("json").load(open(replay)).get("case", {})
     if not replay or is_elab_replay:
-        E.run(out, build, problems, PROP, tier, ['spec_C04', 'spec_C18_registered', 'spec_C18_introspection', 'spec_C18_invlists'], E.default_gen, 500, 10000, RULE_E, replay=replay, known={'spec_C04': 'kf_C04_accept_all'})
+        E.run(out, build, problems, PROP, tier, ['spec_C04', 'spec_C18_registered', 'spec_C18_introspection', 'spec_C18_invlists', 'spec_C03_selection'], E.default_gen, 500, 10000, RULE_E, replay=replay, known={'spec_C04': 'kf_C04_accept_all', 'spec_C03_selection': 'kf_C03_newstyle'})
     return out.finish()
